@@ -543,10 +543,34 @@ def exact_key_rule(ck, P, b, urlh):
                   "so paths that leave the archive root are answered with 200" % ops) if rooted else "the lookup key is not derived from the request path", ir.loc(n))
 
 
+REWRITERS = ("with_file_name", "set_file_name", "with_extension", "set_extension", "with_added_extension", "add_extension", "pop", "parent")
+
+
+def component_rewrite_rule(ck, P):
+    """R-TAINT-FS|component-rewrite: a request path that passed the component guard is only ever EXTENDED (push / join of a literal, a
+    suffix appended to its text).  Path methods that replace or drop the last component work on Path::file_name(), which skips a
+    trailing `.` or `/`: on `<root>/.` they rewrite the ROOT's own name, so `<root>/.` + with_file_name("site.gz") is `<parent>/site.gz`.
+    No such method may be applied to a path in the module that serves files from a folder (helpers included)."""
+    mods = ("versatiles/src/tools/server/sources/static_source_folder.rs",)
+    n, bad = 0, []
+    for b in P.bodies:
+        if b["s"][0] not in mods or "::tests::" in b["q"]:
+            continue
+        n += 1
+        for y in ir.walk_nodes(b["body"]):
+            if y.get("k") == "mcall" and y.get("name") in REWRITERS and (y.get("q") or "").startswith(("std::path::Path::", "std::path::PathBuf::")):
+                bad.append((y["name"], b["q"].rsplit("::", 1)[-1], ir.loc(y)))
+    ck.anchor("R-TAINT-FS", "bodies of the folder source module", n, 3)
+    ck.check(not bad, "R-TAINT-FS", "Folder|component-rewrite", "paths in the folder source are only extended, never have their last component replaced or dropped",
+             "the folder source rewrites the last component of a path (%s): Path::file_name() skips a trailing `.`, so for a request that addresses the root itself the "
+             "ROOT's name is replaced and the file opened lies next to the root, outside it" % [(a, f) for a, f, _ in bad[:3]], bad[0][2] if bad else None)
+
+
 def rules(ck, P):
     impls = P.impls_of("::StaticSourceTrait")
     if not ck.anchor("R-TAINT-FS", "impl StaticSourceTrait", impls, 2):
         return
+    component_rewrite_rule(ck, P)
     n_sinks = 0
     for i in impls:
         b = P.impl_method(i, "get_data")
